@@ -181,7 +181,7 @@ def run_shard(shard, tier):
                     acc.sample({"text": text, "form": i})
     else:
         _, fam, blk = shard
-        both = fam in ("atoms", "terms")
+        both = fam == "atoms"      # the assembled twin of a read model, for the atom pool
         for n, spec in enumerate(P.block_specs(fam, tier, blk)):
             m_r, text = (None, None) if fam == "constructed" else P.read_spec(spec)
             if m_r is not None:
